@@ -59,7 +59,7 @@ pub fn rich_card(variant: u8, pre_amount: u64, open_receipts: &[u64], next_recei
         4 => Some(pre_amount + 1),
         _ => Some(1),
     };
-    let status = if (v / 24) % 2 == 0 { Some(StatusFields { amount: Some(match (v / 48) % 3 { 0 => 0, 1 => pre_amount / 2, _ => 999_999 }), trace_number: Some(4711), date: Some(1231), time: Some(235959), terminal_id: Some(87654321), currency: Some(if v % 2 == 0 { 978 } else { 840 }), card_name: Some("girocard".into()) }) } else { None };
+    let status = if (v / 24) % 2 == 0 { Some(StatusFields { amount: Some(match (v / 48) % 3 { 0 => 0, 1 => pre_amount / 2, _ => 999_999 }), trace_number: Some(4711), date: Some(1231), time: Some(235959), terminal_id: Some(87654321), currency: Some(if v % 2 == 0 { 978 } else { 840 }), card_name: Some("girocard".into()), result_code: None }) } else { None };
     CardData { uid: Some("000000000000081ca72f".into()), status, receipt, max_pre_auth: max_pre, ..CardData::default() }
 }
 
